@@ -41,7 +41,7 @@ func commitWindowExps() []cwExp {
 		}
 	}
 	// a request the journal refuses as too large, inside another request's commit (flush positions, shared commit state)
-	for _, v := range []string{"COMMITF", "WRITEF2", "CREATE", "SETATTRF", "REMOVEX"} {
+	for _, v := range []string{"COMMITF", "WRITEF2", "WRITEF1", "CREATE", "SETATTRF", "REMOVEX"} {
 		for _, h := range []string{"precommit", "committed"} {
 			out = append(out, cwExp{v, h, []string{"BIGSYM"}, nil, false, false}, cwExp{v, h, []string{"WG0", "BIGSYM"}, []string{"COMMITG"}, false, false})
 		}
@@ -240,11 +240,14 @@ func runCommitWindow(k int, e cwExp, t *Trace, seg int) int {
 	case "COMMITF":
 		v = NewCall("COMMIT")
 		v.Fh = fhF
-	case "WRITEF2", "WRITEF0":
+	case "WRITEF2", "WRITEF1", "WRITEF0":
 		v = NewCall("WRITE")
 		st := 2
 		if e.victim == "WRITEF0" {
 			st = 0
+		}
+		if e.victim == "WRITEF1" { // DATA_SYNC
+			st = 1
 		}
 		v.Fh, v.Off, v.Cnt, v.DLen, v.Data, v.Stable = fhF, 100, 5000, 5000, []Run{{5000, 42}}, st
 	case "CREATE":
